@@ -178,7 +178,21 @@ func orchMain() int {
 	var harness []string
 	for i, r := range results {
 		if r.out == nil {
-			// crashed, hung or failed worker
+			// crashed, hung or failed worker: violations it had already recorded still count
+			partial := 0
+			if b, err := os.ReadFile(filepath.Join(scratch, fmt.Sprintf("w%d.json.viol", i))); err == nil {
+				for _, line := range strings.Split(string(b), "\n") {
+					var rec ViolationRec
+					if line != "" && json.Unmarshal([]byte(line), &rec) == nil {
+						viols = append(viols, rec)
+						partial++
+					}
+				}
+			}
+			if partial > 0 {
+				fmt.Printf("dsim: worker %d died (exit %d) after reporting %d violation(s); its later runs are lost\n", i, r.exit, partial)
+				continue
+			}
 			v, herr := triageDeadWorker(p, tier, r, scratch, i)
 			if v != nil {
 				viols = append(viols, *v)
